@@ -435,24 +435,34 @@ fn constant_data_from_storage_offset<T: LeBytes + FromByteArray>(
     offset: usize,
     name: Option<&str>,
 ) -> Result<ConstantNodeData<T>, LoadError> {
-    let n_elements: usize = shape.iter().product();
-    let byte_len = n_elements * std::mem::size_of::<T>();
-
-    let Some(bytes) = storage.data().get(offset..offset + byte_len) else {
+    // The shape comes from the model file, so the size of the data and the
+    // end of its range in the storage are computed with overflow checks.
+    let byte_len = shape
+        .iter()
+        .try_fold(std::mem::size_of::<T>(), |len, &size| len.checked_mul(size));
+    let bytes = byte_len
+        .and_then(|byte_len| offset.checked_add(byte_len))
+        .and_then(|end| storage.data().get(offset..end));
+    let Some(bytes) = bytes else {
         return Err(load_error!(GraphError, name, "invalid tensor data offset"));
     };
+
+    let data_len = bytes.len() / std::mem::size_of::<T>();
+    let shape_error =
+        || load_error!(GraphError, name, "length {} does not match shape {:?}", data_len, shape);
 
     if let Some(elements) = cast_le_bytes(bytes) {
         let storage =
             ArcSlice::new(storage.clone(), elements).expect("storage does not contain data");
-        let const_data: ConstantNodeData<T> = ArcTensorView::from_data(shape, storage).into();
-        Ok(const_data)
+        let view = ArcTensorView::try_from_data(shape, storage).map_err(|_| shape_error())?;
+        Ok(view.into())
     } else {
         let data: Vec<_> = bytes
             .chunks(std::mem::size_of::<T>())
             .map(|chunk| T::from_le_bytes(chunk.try_into().unwrap()))
             .collect();
-        Ok(ArcTensor::from_data(shape, Arc::new(data)).into())
+        let tensor = ArcTensor::try_from_data(shape, Arc::new(data)).map_err(|_| shape_error())?;
+        Ok(tensor.into())
     }
 }
 
